@@ -25,7 +25,7 @@ HARNESS = os.path.join(ROOT, "harness/c10/zz_verif_c10_test.go")
 PKG = "./internal/index/manager/"
 RUN = os.path.join(BUILD, "run", "c10")
 TAGDEFS = ['cdata:"^a+$"', 'cdata:"bb"', 'cdata:"^[ab]+$"']   # anchored: a stream stops matching when a later capture extends it
-GEN_VERSION = 10
+GEN_VERSION = 11
 KF_REFETCH = "view-refetch-empty"
 
 
@@ -56,20 +56,20 @@ def gen_scenario(rng, name, big=False):
     script = []
     n = rng.randint(8, 60 if big else 38)
     style = rng.random()
-    ops = ["import", "step", "view", "read", "release", "tagadd", "tagdel", "tagupd", "failmerge"]
+    ops = ["import", "step", "view", "read", "release", "tagadd", "tagdel", "tagupd", "failmerge", "markadd", "markdel"]
     if style < 0.25:      # merge-heavy: few tags, many steps, merges that fail on a damaged input
-        w = [0.22, 0.40, 0.12, 0.03, 0.09, 0.02, 0.01, 0.01, 0.14]
-    elif style < 0.5:     # view-heavy
-        w = [0.18, 0.30, 0.22, 0.05, 0.13, 0.04, 0.02, 0.02, 0.05]
+        w = [0.22, 0.40, 0.12, 0.03, 0.09, 0.02, 0.01, 0.01, 0.14, 0.02, 0.01]
+    elif style < 0.5:     # view-heavy, with mark edits under open views
+        w = [0.18, 0.30, 0.22, 0.05, 0.13, 0.04, 0.02, 0.02, 0.05, 0.07, 0.05]
     elif style < 0.75:
-        w = [0.22, 0.36, 0.13, 0.04, 0.09, 0.06, 0.03, 0.03, 0.05]
-    else:                 # tag-heavy: tags deleted / redefined while their tagging job is parked
-        w = [0.18, 0.35, 0.10, 0.02, 0.06, 0.10, 0.09, 0.09, 0.02]
+        w = [0.22, 0.36, 0.13, 0.04, 0.09, 0.06, 0.03, 0.03, 0.05, 0.04, 0.03]
+    else:                 # tag-heavy: tags deleted / redefined while their tagging job is parked, marks edited
+        w = [0.18, 0.35, 0.10, 0.02, 0.06, 0.10, 0.09, 0.09, 0.02, 0.06, 0.05]
     for _ in range(n):
         k = rng.choices(ops, weights=w)[0]
         if k == "import":
             script.append(["import", rng.choice([1, 1, 1, 2, 3])])
-        elif k in ("step", "read", "release", "tagdel", "tagupd"):
+        elif k in ("step", "read", "release", "tagdel", "tagupd", "markadd", "markdel"):
             script.append([k, rng.randrange(6)])
         elif k == "view":
             script.append(["viewp"] if rng.random() < 0.4 else ["view"])   # viewp: battery asks with PrefetchAllTags
@@ -143,6 +143,14 @@ def fixed_scenarios():
                 "script": [["import", 1], ["job", "import"], ["job", "import"], ["tagadd"], ["job", "tag"], ["job", "tag"], ["view"],
                            ["import", 1], ["job", "import"], ["job", "import"], ["viewp"], ["read", 0], ["import", 1], ["job", "import"],
                            ["viewp"], ["job", "import"], ["viewp"], ["job", "tag"], ["job", "tag"]]})
+    # mark edits (add / remove ids inside the existing words of the bitmask) while views hold a copy of the mark tag
+    out.append({"name": "fix-mark-edits-under-views", "caps": [[[0, 3], [1, 2], [2, 1]], [[0, 1], [3, 2]]], "tags": [], "probe": 6,
+                "script": [["import", 1], ["job", "import"], ["job", "import"], ["markadd", 0], ["markadd", 1], ["view"], ["markdel", 0],
+                           ["viewp"], ["markadd", 2], ["import", 1], ["job", "import"], ["view"], ["markdel", 1], ["job", "import"], ["markadd", 3]]})
+    # several unmerged index files of different sizes: paged, sorted searches must still list every stream once
+    out.append({"name": "fix-paged-search-unmerged", "caps": [[[0, 3], [1, 2], [2, 1]], [[3, 4]], [[0, 1], [4, 2]], [[1, 1]]], "tags": ['cdata:"bb"'], "probe": 7,
+                "script": [["import", 1], ["job", "import"], ["job", "import"], ["tagadd"], ["import", 1], ["job", "import"], ["job", "import"],
+                           ["view"], ["import", 1], ["job", "import"], ["job", "import"], ["viewp"], ["import", 1], ["job", "import"], ["job", "import"], ["view"]]})
     # chained import jobs with captures queued behind them: the pcap-processed report must name the finished files
     out.append({"name": "fix-report-names-finished-files", "caps": [[[0, 1]], [[1, 1]], [[2, 1]], [[0, 2]], [[3, 1]], [[1, 2]], [[4, 1]]], "tags": [], "probe": 7,
                 "script": [["import", 1], ["import", 2], ["job", "import"], ["job", "import"], ["import", 1], ["job", "import"], ["import", 1],
@@ -370,6 +378,34 @@ def processed_sets(sc, steps):
     return res, probs
 
 
+def check_paged(ob):
+    """Sorted searches with a page size over the view's (possibly unmerged) index files: all pages together must be the
+    view's AllStreams -- every stream exactly once, newest version -- in the order of the sort key, full pages."""
+    bad = []
+    a = parse_ans(ob["ans"])
+    if a["A"]["err"]:
+        return bad
+    full = {int(i): (int(f), int(v)) for (i, f, v) in a["A"]["items"]}
+    for p in ob.get("paged") or []:
+        head, body = p.split("=", 1)
+        key, limit = head.split("/")
+        limit = int(limit)
+        pages = [[tuple(int(x) for x in e.split(":")) for e in pg.split(",") if e] for pg in body.split("|")]
+        ids = [i for pg in pages for (i, _v) in pg]
+        if sorted(ids) != sorted(full) or any(full[i][1] != v for pg in pages for (i, v) in pg if i in full):
+            bad.append("search sort:%s with page size %d returns %s over all pages, the view's streams are %s" % (
+                key, limit, [list(pg) for pg in pages], sorted((i, v) for i, (_f, v) in full.items())))
+            continue
+        if any(len(pg) != limit for pg in pages[:-1]) or len(pages[-1]) > limit:
+            bad.append("search sort:%s with page size %d: page sizes %s" % (key, limit, [len(pg) for pg in pages]))
+        col = {"id": lambda i: i, "cbytes": lambda i: full[i][1], "cport": lambda i: full[i][0]}.get(key.lstrip("-"))
+        if col:
+            ks = [col(i) for i in ids]
+            if ks != sorted(ks, reverse=key.startswith("-")):
+                bad.append("search sort:%s with page size %d is not in sort order: keys %s" % (key, limit, ks))
+    return bad
+
+
 def vdiff(a, b):
     """the parts of two battery answers that differ"""
     pa, pb = a.split(" "), b.split(" ")
@@ -389,6 +425,9 @@ def oracle_c10(sc, trace):
             fails.append(fail("C10", "fatal", i, s["fatal"]))
             break
         for vid, ob in sorted((s.get("views") or {}).items()):
+            pg = check_paged(ob)
+            if pg:
+                fails.append(fail("C10", "paged", i, "view %s: %s" % (vid, "; ".join(pg[:2])), view=vid))
             ob = dict(ob, ans=ob["ans"] + " TAGCOPY=" + ob.get("tags", ""))
             if vid not in first:
                 first[vid] = (i, ob["ans"], set(proc[i]), list(ob["held"]))
@@ -556,6 +595,8 @@ def model_case_text(sc, trace):
             lines.append(act[0])
         elif act[0] == "failmerge":
             lines.append("mergefail")
+        elif act[0] in ("marknew", "markedit"):
+            lines.append(act[0])
         elif act[0] in ("start", "complete"):
             lines.append("%s %s" % (act[0], act[1]))
         elif act[0] == "restart":
